@@ -256,7 +256,11 @@ func Blocking(site string) {
 	id := goid()
 	s.mu.Lock()
 	if g := s.gs[id]; g != nil {
-		g.site = site
+		if !strings.Contains(g.site, " <- ") {
+			g.site = site + " <- " + g.site
+		} else {
+			g.site = site + " <- " + g.site[strings.Index(g.site, " <- ")+4:]
+		}
 	}
 	s.mu.Unlock()
 }
